@@ -1256,8 +1256,12 @@ def ampm_table(fn, node, ev, idx, mod, cls):
                             int_atoms[t.id] = ('name', t.id)
                         elif isinstance(t, ast.Attribute) and isinstance(t.value, ast.Name) and ev(t) is NOVAL:
                             int_atoms[ast.unparse(t)] = ('attr', t.value.id, t.attr)
+    const_roots = {n.value.id for c in pos + neg for n in ast.walk(c)
+                   if isinstance(n, ast.Attribute) and isinstance(n.value, ast.Name) and ev(n) is not NOVAL}
     for c in pos + neg:
         for n in ast.walk(c):
+            if isinstance(n, ast.Name) and n.id in const_roots:
+                continue
             if isinstance(n, ast.Name) and n.id not in int_atoms and not any(a[0] == 'attr' and a[1] == n.id for a in int_atoms.values()):
                 vals = defs.get(n.id, [])
                 if vals and any((isinstance(v, ast.Constant) and isinstance(v.value, bool)) or isinstance(v, ast.Compare) for v in vals) \
